@@ -82,11 +82,12 @@ check("C01", "served content hashes to its digest", "exploration",
 check("C02", "acknowledged pushes read back identically", "exploration",
       "rapid state machine vs reference model (bytes, length, digest, media type, range slices) over push/delete/collect/restart histories",
       "Randomised model-based search over histories of pushes, re-pushes, tag moves, deletes, collections and restarts on both stores, with manifest sizes around the "
-      "configured limit (known and unknown Content-Length), generated Accept lists and byte ranges; every acknowledged item is read back by digest and tag after every step.",
+      "configured limit (known and unknown Content-Length), generated Accept lists and byte ranges; every acknowledged item is read back by digest and tag after every step. TestC02Faults (vfs build): the k-th mutating file-system call of a generated history fails with EIO; every push acknowledged before or after the fault that no later request "
+      "addressed must read back byte-identical from the running server and after Close + New.",
       "Trusted: the naive map model; collections run under a retain-everything policy here (policy-dependent retention is C05's oracle); by-digest visibility of manifests "
       "affected by open finding C02/orphaned-child is not asserted (counted in evidence).",
       "DESIGN.md §3 C02",
-      [R("^TestC02$", 4000, 180000, steps=40)])
+      [R("^TestC02$", 4000, 180000, steps=40), R("^TestC02Faults$", 3000, 200000, variant="vfs")])
 
 check("C03", "tags are a last-writer-wins map; listing and paging exact", "exploration",
       "rapid state machine vs model map tag->digest; Link chains followed to the end; n/last boundary values",
